@@ -776,6 +776,16 @@ func corpusClasses() []FileDef {
 			Const{Name: "Down", Val: "1", Cells: []Cell{cellOf(kS, "_", "Up", 0, false), cellOf(kun, "_", "", 20, false)}},
 			Const{Name: "Left", Val: "2", Cells: []Cell{cellOf(kS, "_", "left", 0, false), cellOf(kun, "_", "", 30, false)}}),
 	}})
+	// 9d. two traits whose NAMES differ only by case, ONE of them declared parsable: the numerals of the other
+	//     are not documents of the enum and must be rejected by every decoder (round 8, C05-82)
+	o9d := defaultOpts()
+	o9d.Parsable = []string{"Id"}
+	out = append(out, FileDef{Kind: "corpus", Opts: o9d, Traits: true, Enums: []EnumDef{
+		traitEnum("E0", uByName("int"), 0, []TypeInfo{typeInfoOf(kun)},
+			Const{Name: "Low", Val: "0", Cells: []Cell{num(kun, "_Id", "1"), num(kun, "_ID", "10")}},
+			Const{Name: "Mid", Val: "1", Cells: []Cell{num(kun, "_", "2"), num(kun, "_", "20")}},
+			Const{Name: "High", Val: "2", Cells: []Cell{num(kun, "_", "3"), num(kun, "_", "30")}}),
+	}})
 	// A. -caseInsensitive together with parsable string traits (untyped and named type) whose values
 	//    contain upper-case letters: Parse must match trait constants exactly, names in any case
 	oa := defaultOpts()
